@@ -566,7 +566,7 @@ def tasks_for(seed):
 
 def main():
     t0 = time.time()
-    base = tempfile.mkdtemp(prefix='pytough-', dir='/var/tmp')
+    base = tempfile.mkdtemp(prefix='pytough-', dir=os.environ.get('PYTOUGH_SCRATCH', '/var/tmp'))
     failures, evals, distinct, samples, classes = [], {}, set(), [], {}
     try:
         T = tasks_for(SEED)
